@@ -1212,6 +1212,22 @@ func c12ReplyPerRequest(c *Ctx) {
 				if al, isAlloc := lf.(*ssa.Alloc); isAlloc && al.Parent() == fn {
 					continue // made for this request
 				}
+				// a constructor called in this function: every result is an object allocated in that call
+				if cc, isCall := lf.(*ssa.Call); isCall {
+					if hf := cc.Call.StaticCallee(); hf != nil && InRepo(hf) && hf.Blocks != nil && hf.Signature.Results().Len() == 1 {
+						fresh := len(Returns(hf)) > 0
+						for _, r := range Returns(hf) {
+							for _, l2 := range leaves(RetVals(r)[0]) {
+								if a2, ok := l2.(*ssa.Alloc); !ok || a2.Parent() != hf {
+									fresh = false
+								}
+							}
+						}
+						if fresh {
+							continue
+						}
+					}
+				}
 				// kept elsewhere: the result code (or the whole object) must be stored on every path to the reply
 				stored := false
 				for _, b := range fn.Blocks {
